@@ -186,6 +186,10 @@ def check_train(s, cls, meth, loss_meth, grad_attr):
         pnames = [a.arg for a in fnl.args.args]
         s.ob("C08.6", con, m.get(pnames[0]) == ("param", "policy"), "parameter 0 (the differentiated one) is the policy", loc,
              key="grad-wrt", detail=show(m.get(pnames[0], NONE), maxlen=100))
+        want_buf = ("param", "rollout_buffer") if meth == "train_batch" else ("call", ("attr", ("param", "buffer"), "flatten_axes"), (), ())
+        s.ob("C08.6", con, m.get(pnames[1]) == want_buf,
+             "the loss is evaluated on " + ("the minibatch passed in" if meth == "train_batch" else "the whole collected buffer with its (env, step) axes flattened"), loc,
+             key="loss-data", detail=show(m.get(pnames[1], NONE), maxlen=120), necessary_for="every collected sample enters the expectation exactly once")
         for pn in pnames[2:]:
             s.ob("C08.6", con, m.get(pn) == ("attr", ("param", "self"), pn),
                  f"loss parameter `{pn}` receives self.{pn}", loc, key=f"coef-{pn}", detail=show(m.get(pn, NONE), maxlen=100),
